@@ -68,7 +68,7 @@ Lemma combine_seq_length {A} (l : list A) a : List.length (combine (seq a (List.
 Proof. rewrite combine_length, seq_length. lia. Qed.
 
 Section Shape.
-  Variables (g : list node) (inv : N) (mc fixed : bool).
+  Variables (g : list node) (inv : N) (mc : bool) (fixed : config).
   Variable init : list task.
   Notation n0 := (List.length init).
 
@@ -109,7 +109,7 @@ Section Shape.
                n0 <= id /\ exists t, nth_error s id = Some t /\ tinv t = inv /\ tshard t = k
                  /\ tnshard t = List.length rts /\ tgroup t = ids
                  /\ tdeps t = [mkTDep (nth k rts 0) 0 false ""%string]
-                 /\ (fixed = true -> part_fields p t)
+                 /\ (cfg_partitioned fixed = true -> part_fields p t)
            else ids = rts
        end.
 
@@ -273,9 +273,9 @@ Section Shape.
     set (ts := reshuffle_tasks inv fixed s opn p rts ids).
     assert (Hts : forall k t, nth_error ts k = Some t ->
               exists rid, nth_error rts k = Some rid /\
-              t = mkTask inv opn k (List.length rts) (if fixed then part_num p else 0)
-                         (if fixed then part_kind p else 0) (if fixed then pcomb p else false)
-                         (if fixed then pckey p else ""%string) [mkTDep rid 0 false ""%string] ids
+              t = mkTask inv opn k (List.length rts) (if cfg_partitioned fixed then part_num p else 0)
+                         (if cfg_partitioned fixed then part_kind p else 0) (if cfg_partitioned fixed then pcomb p else false)
+                         (if cfg_partitioned fixed then pckey p else ""%string) [mkTDep rid 0 false ""%string] ids
                          (tslices (get_task s rid))).
     { intros k t Hk. unfold ts, reshuffle_tasks in Hk.
       rewrite nth_error_map in Hk. destruct (nth_error (combine _ _) k) as [[a b]|] eqn:C; [|discriminate].
@@ -316,7 +316,7 @@ Section Shape.
       exists t. split; [rewrite nth_error_app2 by lia; now replace (List.length s + k - List.length s) with k by lia|].
       destruct (Hts k t Ht) as (rid & Hrid & ->). simpl.
       repeat split; auto.
-      all: try (match goal with Hf : fixed = true |- _ => rewrite Hf; reflexivity end).
+      all: try (match goal with Hf : cfg_partitioned fixed = true |- _ => rewrite Hf; reflexivity end).
       f_equal. f_equal. symmetry. eapply nth_error_nth'; eauto.
   Qed.
 
